@@ -4,6 +4,7 @@ import AsyncFix.Lemmas.SessionInMsg
 C04 helper: RESENDREQ_AWAITING – when the state is left, and that no inbound frame makes the
 receiver write another ResendRequest while it lasts.
 -/
+set_option linter.unusedSimpArgs false
 namespace AsyncFix.Session
 open AsyncFix.Generated AsyncFix.Generated.ConnEnum
 
